@@ -19,6 +19,22 @@ fn mk_exec(argv: &[Vec<u8>]) -> Exec {
     e
 }
 
+/// the pretty Debug form (`{:#?}`, what `dbg!` prints) is Debug output too: when its text between the braces differs from the
+/// plain form it is reported as ` alt=<hex>` and evaluated by the shell as well
+fn alt_form(pretty: &str, name: &str, plain_inner: &str) -> String {
+    let inner = pretty
+        .strip_prefix(name)
+        .map(|r| r.trim_start())
+        .and_then(|r| r.strip_prefix('{'))
+        .and_then(|r| r.strip_suffix('}'))
+        .map(|r| r.trim_matches(|c| c == ' ' || c == '\n'));
+    match inner {
+        Some(t) if t == plain_inner => String::new(),
+        Some(t) => format!(" alt={}", hex(t.as_bytes())),
+        None => format!(" alt={}", hex(pretty.as_bytes())),
+    }
+}
+
 /// `sh <arg>+`  /  `shp <arg>+ / <arg>+ ...` -> `ok <hex of the text between the braces>`
 fn engine_sh() {
     let stdin = io::stdin();
@@ -40,7 +56,7 @@ fn engine_sh() {
                 if dbg != format!("Exec {{ {} }}", cl) {
                     writeln!(out, "debug-mismatch {}", hex(dbg.as_bytes())).unwrap();
                 } else {
-                    writeln!(out, "ok {}", hex(cl.as_bytes())).unwrap();
+                    writeln!(out, "ok {}{}", hex(cl.as_bytes()), alt_form(&format!("{:#?}", e), "Exec", &cl)).unwrap();
                 }
             }
             "shp" => {
@@ -71,7 +87,7 @@ fn engine_sh() {
                 };
                 let dbg = format!("{:?}", p);
                 match dbg.strip_prefix("Pipeline { ").and_then(|r| r.strip_suffix(" }")) {
-                    Some(inner) => writeln!(out, "ok {}", hex(inner.as_bytes())).unwrap(),
+                    Some(inner) => writeln!(out, "ok {}{}", hex(inner.as_bytes()), alt_form(&format!("{:#?}", p), "Pipeline", inner)).unwrap(),
                     None => writeln!(out, "debug-mismatch {}", hex(dbg.as_bytes())).unwrap(),
                 }
             }
@@ -310,6 +326,15 @@ fn stage_main(beh: &str) -> ! {
                 die();
             }
         },
+        "YC" => {
+            // closes its stdin at once (whoever feeds it gets EPIPE) and then writes without bound
+            unsafe { libc::close(0) };
+            loop {
+                if out.write_all(b"yyyyyyyyyyyyyyyyyyyyyyyyyyyyyyyyyyyyyyyyyyyyyyyyyyyyyyyyyyyyyyy\n").is_err() {
+                    die();
+                }
+            }
+        }
         "YE" => {
             let err = std::io::stderr();
             let mut e = err.lock();
